@@ -81,18 +81,22 @@ Fixpoint kept_outside (text out : list Z) (cov : list bool) : bool :=
 Definition has_prefix (d : list (list Z)) (p : list Z) : bool :=
   existsb (fun w => prefix_b false p w) d.
 
-Fixpoint ref_walk (d : list (list Z)) (p s : list Z) : bool :=
+(* length - 1 of the match that begins at the head of s for a matcher standing at path p *)
+Fixpoint ref_mlen (d : list (list Z)) (p s : list Z) : option nat :=
   match s with
-  | [] => false
+  | [] => None
   | c :: s' =>
       let q := if has_prefix d (p ++ [c]) then Some (p ++ [c])
                else if has_prefix d (p ++ [star]) then Some (p ++ [star])
                else None in
       match q with
-      | None => false
-      | Some p' => if wmem p' d then true else ref_walk d p' s'
+      | None => None
+      | Some p' => if wmem p' d then Some O else option_map S (ref_mlen d p' s')
       end
   end.
+
+Definition ref_walk (d : list (list Z)) (p s : list Z) : bool :=
+  match ref_mlen d p s with Some _ => true | None => false end.
 
 Fixpoint ref_contains (d : list (list Z)) (s : list Z) : bool :=
   ref_walk d [] s || match s with [] => false | _ :: s' => ref_contains d s' end.
